@@ -153,11 +153,13 @@ func (ref *RefExp) updateForks(fork map[*CallStm]CollectionIndex) (*RefExp, erro
 						makeCopy()
 						result.Forks[src] = unknownIndex{src: m}
 					}
-				} else if j.IndexSource() == nil && !indexEqual(i, j) {
-					errs = append(errs, &bindingError{
-						Msg: fmt.Sprint("inconsistent index ", i.GoString(), " vs ", j.GoString()),
-					})
 				}
+				// Otherwise the reference is already to one specific fork.
+				// The index in the fork can be different from it, because
+				// every instance of a pipeline shares its call statements:
+				// a reference to one instance's fork of a call may be
+				// evaluated in a fork of the same call in another
+				// instance.
 			}
 		}
 	}
